@@ -35,6 +35,7 @@ DOCS = [
     {"a": "abc", "s": "xyz"},
     [0, False, "", None, [], {}, 1, True, "a"],
     {"x": {"y": 1}, "list": [1, "ab"], "a": 1},
+    [{"a": [], "id": 1}, {"a": {}, "id": 2}, {"a": "", "id": 3}, {"a": 0, "id": 4}, {"a": False, "id": 5}, {"a": None, "id": 6}, {"b": 1, "id": 7}, {"a": [[]], "b": []}],
     [],
     {},
 ]
